@@ -430,6 +430,10 @@ func Gen(t *rapid.T) Case {
 	case "box":
 		b := genBox(t, boxKindNames[pick(t, "boxKind", len(boxKindNames))], 0)
 		c.Box = &b
+		if pct(t, 40, "reuseAfterUse") {
+			b2 := genBox(t, b.T, 0)
+			c.Box2 = &b2
+		}
 	default:
 		panic(fmt.Sprintf("kind %q", c.Kind))
 	}
